@@ -202,8 +202,9 @@ def r062(chk, w):
     chk.fn(fn)
     # closure computing n_class: if len >= 2 {len} else {0}
     okc = False
-    for k, bs in w.bodies.items():
-        if k.startswith(fn + "::{closure") and "#promoted" not in k:
+    for k in C.closure_keys(w, fn):
+        bs = w.bodies[k]
+        if True:
             cb = bs[0]
             ci = absint.Interp(w, cb, models=effects.EXTRA_MODELS)
             res = set()
